@@ -180,7 +180,7 @@ Inductive variant := Current | V0.
 
 (* which one is deployed is read off the source on every run (gen/Generated.v) *)
 Definition deployed : variant :=
-  if c20_begin_in_handle && c20_wait_in_wrapper then Current else V0.
+  if c20_begin_in_handle && c20_wait_in_wrapper && c20_register_in_handle then Current else V0.
 
 (* ---- initiator: Service.Connect -> handshake.Handshake -> NewStream ------------------ *)
 Definition fail_i (w : world) : world := set_ipc IFailed (set_i_closed w).
@@ -364,3 +364,122 @@ Definition forget_registration (w : world) : world :=
 Definition is_done (p : rpc_t) : bool := match p with RDone => true | _ => false end.
 (* the whole handshake, both sides run to their end (whatever the outcome) *)
 Definition sched_handshake : list who := hs_prefix ++ release.
+
+(* ---- mutual dial: the node that answers the streams is the handshake INITIATOR ---------------- *)
+(* Names for this section: B = [ini c] runs Connect/Handshake towards A = [rsp c] exactly as in
+   the base world.  A's handler registers B when it has read B's final message.  A's own
+   Connect(B) then reports success at once through the isConnected shortcut of Service.Connect
+   (no second handshake), and A opens streams towards B.  They arrive at B's stream wrapper,
+   which consults B's registry -- filled by B's own Connect (addPeer, after Handshake returned) --
+   and B's record of handshakes in progress.  In the current code that record also brackets the
+   OUTBOUND handshake: [defer s.beginHandshake(addrInfo.ID)()] in Connect, from before
+   hsSvc.Handshake until Connect returns (after addPeer).  [ob = false] is the code without that
+   bracket (only inbound handshakes on record): the variant "_v1".
+
+   The base world is reused unchanged; the base step [IReturn id] ("addPeer, return") is refined
+   into two steps of B here (addPeer, then return), and one step is put in front (begin). *)
+Record mworld := {
+  base : world;
+  b_begun : bool;              (* B's Connect has passed the beginHandshake statement *)
+  b_reg : option ident;        (* B's peers.overlays[A] *)
+  a_ret : option ident;        (* what A's Connect(B) returned *)
+  bw : list wstate             (* B's wrappers for the streams A opened, in opening order *)
+}.
+
+Definition minit : mworld :=
+  {| base := init; b_begun := false; b_reg := None; a_ret := None; bw := [] |}.
+
+Definition set_base (w : world) (m : mworld) : mworld :=
+  {| base := w; b_begun := b_begun m; b_reg := b_reg m; a_ret := a_ret m; bw := bw m |}.
+Definition set_b_begun (m : mworld) : mworld :=
+  {| base := base m; b_begun := true; b_reg := b_reg m; a_ret := a_ret m; bw := bw m |}.
+Definition set_b_reg (id : ident) (m : mworld) : mworld :=
+  {| base := base m; b_begun := b_begun m; b_reg := Some id; a_ret := a_ret m; bw := bw m |}.
+Definition set_a_ret (id : ident) (m : mworld) : mworld :=
+  {| base := base m; b_begun := b_begun m; b_reg := b_reg m; a_ret := Some id; bw := bw m |}.
+Definition set_bw (l : list wstate) (m : mworld) : mworld :=
+  {| base := base m; b_begun := b_begun m; b_reg := b_reg m; a_ret := a_ret m; bw := l |}.
+
+(* len(hsInflight[A]) on B: the deferred end runs when Connect returns (success or error) *)
+Definition b_inflight (ob : bool) (m : mworld) : nat :=
+  if ob && b_begun m then
+    match ipc (base m) with
+    | IOpen _ | IFailed => 0%nat
+    | _ => 1%nat
+    end
+  else 0%nat.
+
+(* B's Connect: begin; the base steps up to the final write; addPeer; return *)
+Definition mstep_b (c : cfg) (m : mworld) : mworld :=
+  if negb (b_begun m) then set_b_begun m
+  else
+    match ipc (base m), b_reg m with
+    | IReturn id, None => set_b_reg id m
+    | _, _ => set_base (step_i c (base m)) m
+    end.
+
+(* A's Connect(B): the isConnected shortcut; without a registered B it would dial and run a
+   handshake of its own in the opposite direction, which is not part of this world (no-op) *)
+Definition mstep_c (m : mworld) : mworld :=
+  match a_ret m, registered (base m) with
+  | None, Some id => set_a_ret id m
+  | _, _ => m
+  end.
+
+(* A opens a stream towards B (NewStream needs the peer in A's registry: after Connect) *)
+Definition mstep_o (m : mworld) : mworld :=
+  match a_ret m with
+  | Some _ => set_bw (bw m ++ [WNew]) m
+  | None => m
+  end.
+
+(* B's stream wrapper: lookup, wait while a handshake with A is on record, lookup *)
+Definition mstep_bw1 (ob : bool) (m : mworld) (s : wstate) : wstate :=
+  match s with
+  | WNew => match b_reg m with Some id => WHandled id | None => WWait end
+  | WWait => if Nat.eqb (b_inflight ob m) 0 then WLook2 else WWait
+  | WLook2 => match b_reg m with Some id => WHandled id | None => WUnknown end
+  | s => s
+  end.
+
+Inductive mwho :=
+| MB                 (* B's Connect *)
+| MR                 (* A's handshake handler (base R) *)
+| MAW (k : nat)      (* A's wrapper for the k-th stream B opened (base W k) *)
+| MC                 (* A's Connect(B) *)
+| MO                 (* A opens a stream to B *)
+| MBW (k : nat).     (* B's wrapper for the k-th stream A opened *)
+
+Definition mstep (ob : bool) (c : cfg) (m : mworld) (a : mwho) : mworld :=
+  match a with
+  | MB => mstep_b c m
+  | MR => set_base (step_r Current c (base m)) m
+  | MAW k => set_base (step_w Current k (base m)) m
+  | MC => mstep_c m
+  | MO => mstep_o m
+  | MBW k => set_bw (upd k (mstep_bw1 ob m) (bw m)) m
+  end.
+
+Definition mrun_from (ob : bool) (c : cfg) (m : mworld) (sched : list mwho) : mworld :=
+  fold_left (mstep ob c) sched m.
+Definition mrun (ob : bool) (c : cfg) (sched : list mwho) : mworld := mrun_from ob c minit sched.
+
+(* is the outbound bracket in the source?  (gen/Generated.v) *)
+Definition ob_deployed : bool := c20_begin_in_connect.
+
+(* canonical schedules of the correspondence check: B is held just before addPeer (it has
+   written its final message), A finishes its side, connects back through the shortcut and opens
+   n streams *)
+Definition m_prefix : list mwho :=
+  [MB; MB] ++ repeat MR 5 ++ repeat MB 5 ++ repeat MR 4 ++ [MC].
+Definition m_opens (n : nat) : list mwho := repeat MO n.
+Definition m_firsts (n : nat) : list mwho := map MBW (seq 0 n).
+Definition m_rests (n : nat) : list mwho := flat_map (fun k => [MBW k; MBW k]) (seq 0 n).
+Definition m_release : list mwho := [MB; MB].
+(* the wrappers only get their first lookup in before B goes on *)
+Definition msched_held (n : nat) : list mwho := m_prefix ++ m_opens n ++ m_firsts n.
+Definition msched_first_lookup_before (n : nat) : list mwho :=
+  msched_held n ++ m_release ++ m_rests n.
+(* the wrappers run to their end before B goes on *)
+Definition msched_all_before (n : nat) : list mwho :=
+  msched_held n ++ m_rests n ++ m_release.
